@@ -5,7 +5,8 @@ VARIABLES i, verdict
 vars == <<i, verdict>>
 AsX(e) == [cell |-> e.cell, atoms |-> [a \in 1..Len(e.atoms) |-> [el |-> e.atoms[a].el, pos |-> <<e.atoms[a].pos[1], e.atoms[a].pos[2], e.atoms[a].pos[3]>>]]]
 Init == i = 0 /\ verdict = "init"
-Next == /\ i = 0 /\ i' \in 1..Len(Batch) /\ verdict' = JudgeBonds(AsX(Batch[i']), Batch[i'].obs, Batch[i'].exc)
+Next == /\ i = 0 /\ i' \in 1..Len(Batch) /\ verdict' = IF Batch[i'].kind = "near" THEN JudgeNear(AsX(Batch[i']), Batch[i'].obs, Batch[i'].exc)
+                                                              ELSE JudgeBonds(AsX(Batch[i']), Batch[i'].obs, Batch[i'].exc)
 Spec == Init /\ [][Next]_vars
 Report == (i > 0 /\ verdict # "ok") => PrintT(<<"REJECT", i, verdict>>)
 =============================================================================
